@@ -7,6 +7,6 @@ mkdir -p /tmp/seedlogs
   echo "== confirm $id"
   /verif/lib/verifyseed.sh $id /verif/seeded/$id
   echo "== checks $id: $*"
-  SEED_WT=/tmp/seedrepo_$id /verif/lib/seedrun2.sh /verif/seeded/$id/patch.diff "$@"
+  SEED_WT=/tmp/seedrepo_$id ${VERIF_DIR:-/verif}/lib/seedrun2.sh /verif/seeded/$id/patch.diff "$@"
   for p in "$@"; do echo "-- $p"; grep -E "^VIOLATION|^KNOWN|^OK|^#" /tmp/seedrepo_${id}_$p.log | cut -c1-400 | head -12; done
 } > /tmp/seedlogs/$id.txt 2>&1
